@@ -107,8 +107,10 @@ instance : Inhabited St := ⟨init 0 0 false false false 0 0⟩
 
 def getS (l : List Stream) (si : BitVec 16) : Option Stream := l.find? (fun x => x.si == si)
 
-def setQ (l : List Stream) (si : BitVec 16) (f : Reasm.Q → Reasm.Q) : List Stream :=
-  l.map fun x => if x.si == si then { x with q := f x.q } else x
+/-- `a.streams[si].reassemblyQueue = f(…)`: the entry `getS` finds (a map has one entry per key) -/
+def setQ : List Stream → BitVec 16 → (Reasm.Q → Reasm.Q) → List Stream
+  | [], _, _ => []
+  | x :: l, si, f => if x.si == si then { x with q := f x.q } :: l else x :: setQ l si f
 
 def nextInc (l : List (BitVec 16 × Nat)) (si : BitVec 16) : Nat := (l.lookup si).getD 0
 
